@@ -70,7 +70,7 @@ void h_fls(void) {
 }
 
 static void havoc_gca(struct gca* g, unsigned c) {
-  XV_ASSUME(c >= 1 && c <= 30);
+  XV_ASSUME(c >= 1 && c <= 31);      /* every capacity up to max_capacity = 2^31 */
   g->_capacity = (size_t)1 << c; g->_buckets = c + 1;
   gA_b = nondet_size(); gA_o = nondet_size(); gB_b = nondet_size(); gB_o = nondet_size();
   gA_v = nondet_uptr(); gB_v = nondet_uptr();
@@ -118,7 +118,7 @@ void h_getput(void) {
 }
 
 void h_grow(void) {
-  struct gca g; in_c = nondet_uint(); havoc_gca(&g, in_c); XV_ASSUME(in_c <= 29);
+  struct gca g; in_c = nondet_uint(); havoc_gca(&g, in_c); XV_ASSUME(in_c <= 30);     /* grow doubles: up to 2^30 -> 2^31 */
 #ifdef XV_TRACE_SMALL
   XV_ASSUME(in_c <= 4); /* counterexample extraction only: the replay program instantiates 2^1..2^10 */
 #endif
@@ -158,7 +158,7 @@ static void env_step(void) {
 #endif
 void h_get_int(void) {
 #ifdef XV_INT
-  struct gca g; unsigned c = nondet_uint(); havoc_gca(&g, c); XV_ASSUME(c <= 29);
+  struct gca g; unsigned c = nondet_uint(); havoc_gca(&g, c); XV_ASSUME(c <= 30);
   size_t idx = nondet_size(); entry item = nondet_uptr();
   env_c0 = g._capacity; env_g = &g; env_grew = 0;
   slot_of(idx, env_c0, &gA_b, &gA_o); slot_of(idx, 2 * env_c0, &gB_b, &gB_o);
